@@ -67,7 +67,7 @@ var builtinSyms = map[string]bool{
 	"any-tag": true, "any-wf": true, "tag-kind": true, "tag-uncomparable": true, "go-div": true, "go-mod": true,
 	"is": true, "_": true, "str.len": true, "str.++": true, "str.at": true, "str.substr": true, "str.contains": true,
 	"str.prefixof": true, "str.suffixof": true, "str.indexof": true, "str.to_code": true, "str.from_code": true,
-	"str-itoa": true, "any-fmt": true, "err-msg": true, "pattern": true,
+	"str-itoa": true, "itoa-inv": true, "any-fmt": true, "err-msg": true, "pattern": true,
 }
 
 func ubiquitous(s string) bool {
